@@ -196,6 +196,9 @@ func (t *Thread) run(f func() any) {
 	t.mu.Unlock()
 }
 
+// GID returns the goroutine id of the thread.
+func (t *Thread) GID() int64 { return t.gid }
+
 // Go starts f on the thread (the thread must be idle).
 func (t *Thread) Go(f func() any) {
 	t.mu.Lock()
